@@ -112,6 +112,9 @@ theorem applyOp_frame (t : T) (op : FsOp) (q : P) (hq : q ∉ written op) : appl
   | rename a b =>
     simp only [written, List.mem_cons, List.not_mem_nil, or_false, not_or] at hq
     simp [applyOp, upd, hq.1, hq.2]
+  | link a b =>
+    simp only [written, List.mem_cons, List.not_mem_nil, or_false] at hq
+    simp only [applyOp]; split <;> simp [upd, hq]
 
 theorem exec_frame (prog : List FsOp) (t : T) (q : P) (hq : ∀ op ∈ prog, q ∉ written op) : exec t prog q = t q := by
   induction prog generalizing t with
@@ -125,7 +128,7 @@ def ignoreBlock : List FsOp := [.openw .ignoreTmp, .write .ignoreTmp, .rename .i
 
 theorem program_autoinit (cmd : Cmd) (d ex pr : Bool) :
     program ⟨cmd, d, ex, true, pr⟩ = ignoreBlock ++ program ⟨cmd, d, ex, false, pr⟩ := by
-  simp [program, programG, ignoreBlock]
+  simp [program, programG, programGP, ignoreBlock]
 
 /-- the ignore-file steps change the ignore file and nothing else (the temp file is fresh and gone afterwards) -/
 theorem ignore_block_frame (t : T) (h : t .ignoreTmp = none) (q : P) (hq : q ≠ .ignoreFile) :
